@@ -1,6 +1,8 @@
 (* Roots/Model.v — the sector-root lists of contracts (properties C03 and C13).
 
-   Mirrors, as they are in /repo with fixes/C03-updater-stale-oldroots.patch applied:
+   Mirrors, as they are in /repo at 4115bc1 (which contains fixes/C03-updater-stale-oldroots.patch
+   as 5090bdc — the model's Commit1 rebases u_old — and fixes/C13-rhp2-session-stale-after-renew.patch
+   as ba53b85, which is what makes the RHP2 handler honour the callers' discipline of ProofsInv.v):
      host/contracts/contracts.go   ContractUpdater: AppendSector, SwapSectors, TrimSectors,
                                    UpdateSector, Commit, Close
      host/contracts/manager.go     sectorRoots cache (get/setSectorRoots), AddContract,
@@ -16,6 +18,8 @@
                                    SectorRoots, V2SectorRoots, Contract, V2Contract
      persist/sqlite/sectors.go     StoreSector / PruneSectors / SectorLocation as far as
                                    "a root is stored" and "a root has a volume slot" go
+     persist/sqlite/metrics.go     incrementNumericStat for metricContractSectors only (its
+                                   "negative stat value" panic is reachable from the replay code)
    No proofs here.
 
    Conventions
